@@ -150,6 +150,17 @@ class Run:
                               "receiver state changed by add_block(%s) (%s)" % (op["label"], "accepted" if cs2 else "rejected: %r" % err))
             if cs2 is not None:
                 self.stat("accepted")
+                if "C02" in self.focus:
+                    # the supply invariant is judged on the code's OWN maps for every accepted block, whatever the reference
+                    # validator says about the block (a double spend that is let through shows up here as created value)
+                    try:
+                        bid_ = skb.hash()
+                        s_new, s_par = self.sums(cs2, bid_), self.sums(cs2, blk.prev)
+                        if s_new > s_par + R.subsidy(blk.height):
+                            self.fail("inflation", "supply-grew-more-than-subsidy",
+                                      "sum(unspent after %s)=%d > sum(parent)=%d + subsidy %d (mut=%s)" % (op["label"], s_new, s_par, R.subsidy(blk.height), tag))
+                    except KeyError:
+                        pass
                 if verdict:
                     mine = [c for c in verdict if c.split(":")[0] in self.focus]
                     if mine:
